@@ -122,6 +122,13 @@ def asan_key(stderr):
     if m:
         w = re.search(r"what\(\):\s*(.*)", stderr)
         return "uncaught:%s:%s" % (m.group(1), (w.group(1)[:60] if w else ""))
+    m = re.search(r"(Segmentation violation|Floating-point arithmetic exception|Unknown) signal( \[\d+\])?(?: in rule:\n(.*))?", stderr)
+    if m:
+        # souffle's own signal handler turns SIGSEGV / SIGFPE into exit(1) with the rule text
+        rule = (m.group(3) or "").split(":-")[0]
+        head = re.sub(r"\{[bf]*\}", "{}", re.sub(r"\d+", "N", rule.split("(")[0]))[:60]
+        shape = "fact" if (m.group(3) is not None and ":-" not in m.group(3)) else "rule"
+        return "signal-handler:%s:%s:%s" % (m.group(1).split(" ")[0], shape, head if head.startswith(("@", "+")) else "-")
     m = re.search(r"Fatal error|fatal: |Internal error", stderr)
     if m:
         line = [l for l in stderr.splitlines() if m.group(0) in l][0]
